@@ -146,4 +146,4 @@ var c14Rec = &vh.Prop[c14Case]{
 
 func init() { registrars = append(registrars, c14.Register, c14Rec.Register) }
 
-func TestC14(t *testing.T) { c14.Check(t, vh.N(30000, 50000)) }
+func TestC14(t *testing.T) { c14.Check(t, vh.N(30000, 40000)) }
